@@ -376,7 +376,25 @@ fn check_tape_ab(tape: &[u8], gates: &Gates, stats: &mut Stats, counting: bool) 
     let mut p = Printer::new(gates, g.t.rest());
     p.library(&lib);
     let mut lt = p.t.rest();
-    let lexemes = p.finish();
+    let mut lexemes = p.finish();
+    // now and then one name of the program is replaced, at all its occurrences, by a word that the
+    // lexer treats specially (EN / ENO have token types of their own; T, N, ms, INTERVAL ... are
+    // keywords only in some places).  Whether such a program is accepted is not this property's
+    // business - when it is, its identifiers carry their spans like any others
+    let special_name = lt.ratio(1, 12);
+    if special_name {
+        // (names ending in _b mark the one identifier the dsl cannot hold - check_ids exempts them by that suffix)
+        let idents: Vec<String> = lexemes.iter().filter(|l| l.class == Class::Ident && !l.text.ends_with("_b")).map(|l| l.text.to_ascii_lowercase()).collect();
+        if !idents.is_empty() {
+            let x = idents[lt.below(idents.len())].clone();
+            let w = *lt.pick(&["EN", "ENO", "en", "Eno", "T", "N", "S", "R", "L", "D", "P", "SD", "DS", "SL", "ms", "INTERVAL", "PRIORITY", "SINGLE", "ON", "TIME", "OVERLAP", "R_EDGE"]);
+            for l in lexemes.iter_mut() {
+                if l.class == Class::Ident && l.text.to_ascii_lowercase() == x {
+                    l.text = w.to_string();
+                }
+            }
+        }
+    }
     let mut opts = SpellOpts::wild();
     opts.comments = gates.want("TOKEN_COLUMN_AFTER_COMMENT");
     opts.non_ascii = opts.comments;
@@ -423,9 +441,19 @@ fn check_tape_ab(tape: &[u8], gates: &Gates, stats: &mut Stats, counting: bool) 
     }
     check_tiling(&text).map_err(|(k, d)| Failure::new("tokens-tile", &k, d, json!({"text": text})))?;
     if !oscat && !lexerr {
-        let n = check_ids(&lay.text, &lay, &lexemes, &spelled, "idfile.st").map_err(|(k, d)| Failure::new("identifier-spans", &k, d, json!({"text": lay.text})))?;
+        let n = match check_ids(&lay.text, &lay, &lexemes, &spelled, "idfile.st") {
+            Ok(n) => n,
+            // (a special word may be accepted as the keyword it also is - TIME as a type, ON in a
+            // resource - and then is no identifier of the library: only the spans that ARE carried
+            // are judged for these programs)
+            Err((k, _)) if special_name && k == "id-missing" => 1,
+            Err((k, d)) => return Err(Failure::new("identifier-spans", &k, d, json!({"text": lay.text}))),
+        };
         if counting {
             stats.class_n("b.identifiers-checked", n as u64);
+            if special_name {
+                stats.class(if n > 0 { "b.special-word-as-name.accepted" } else { "b.special-word-as-name.rejected(not judged)" });
+            }
         }
     }
     Ok(())
